@@ -133,3 +133,26 @@ Definition cs p t d f e o :=
   {| c_pfx := p; c_types := t; c_d := d; c_f := f; c_env := e; c_obs := o |}.
 Definition kt (s : string) (nk val : string) : key := ([s], Some (nk, val)).
 Definition kf (l : list string) : key := (l, None).
+
+(* ------------------------------------------------------------------ stream "schema" *)
+
+(** one probe of the schema/loader replay: the verdict of the real schema
+    validation on a file holding the mechanism definition, and the verdict of
+    the real loader on the same definition.
+    v_corr : (controlled probes) both verdicts are what the regenerated tables predict
+    v_prop : the two verdicts coincide ("usable from a file iff usable from the environment")
+    guards : 1 = the probe touches a recorded disagreement row (C20-F1) *)
+From HV Require Export C20.SchemaModel Gen.SchemaTables.
+
+Record scase := { s_probe : probe; s_controlled : bool; s_schema : bool; s_loader : bool }.
+
+Definition check_schema (c : scase) : verdict :=
+  {| v_corr := negb (s_controlled c) ||
+               (Bool.eqb (accepts schema_tbl (s_probe c)) (s_schema c) &&
+                Bool.eqb (accepts loader_tbl (s_probe c)) (s_loader c));
+     v_prop := Bool.eqb (s_schema c) (s_loader c);
+     v_guards := guards [(1%Z, probe_guard (s_probe c))] |}.
+
+Definition sc k t cf o c s l :=
+  {| s_probe := {| p_kind := k; p_type := t; p_config := cf; p_opts := o |};
+     s_controlled := c; s_schema := s; s_loader := l |}.
